@@ -1,19 +1,529 @@
 package sim
 
+import (
+	"bytes"
+	"encoding/json"
+	"flag"
+	"fmt"
+	"net/http/httptest"
+	"os"
+	"os/exec"
+	"path/filepath"
+	"regexp"
+	"runtime"
+	"sort"
+	"strings"
+	"sync"
+	"time"
+)
+
+// ---- race half of C10 ----
+//
+// A cooperative scheduler creates a happens-before edge at every hand-off,
+// so the Go race detector is blind under it. This half therefore runs an
+// UN-instrumented `-race` build of the same service and releases the requests
+// of a set as truly parallel goroutines. The interleaving here is not chosen
+// by the simulator; the detector is happens-before based and reports two
+// unsynchronised conflicting accesses whenever both occur. "Reproduces" means
+// the detector reports the same pair of repo code locations again.
+
 type raceEvidence struct {
-	Rounds       int      `json:"rounds"`
-	RequestSets  int      `json:"request_sets"`
-	Requests     int64    `json:"requests"`
-	Reports      int      `json:"race_reports"`
-	RepoReports  int      `json:"race_reports_in_repo_code"`
-	Note         string   `json:"note"`
-	Pairs        []string `json:"pairs,omitempty"`
+	Rounds      int      `json:"rounds"`
+	RequestSets int      `json:"request_sets"`
+	Requests    int64    `json:"requests"`
+	Reports     int      `json:"race_reports"`
+	RepoReports int      `json:"race_reports_in_repo_code"`
+	Fatal       int      `json:"fatal_concurrent_map_errors"`
+	Differs     int      `json:"parallel_responses_differing_from_solo"`
+	Note        string   `json:"note"`
+	Pairs       []string `json:"pairs,omitempty"`
 }
 
-func (c *checker) raceHalf(a *runOutcome) {}
+type raceReq struct {
+	Method string `json:"method"`
+	Path   string `json:"path"`
+	Body   []byte `json:"body"`
+}
 
-func raceReproduces(rp *Replay) (bool, *Violation) { return false, nil }
+type raceInput struct {
+	Sets   [][]raceReq `json:"sets"`
+	Rounds int         `json:"rounds"`
+}
 
-func raceNodeMain(env Env, args []string) int { return 2 }
+type raceOutput struct {
+	Requests int64    `json:"requests"`
+	Differs  []string `json:"differs"`
+}
 
-func selftestMain(args []string) int { return 2 }
+// raceNodeMain runs inside the -race build.
+func raceNodeMain(env Env, args []string) int {
+	fs := flag.NewFlagSet("racenode", flag.ExitOnError)
+	in := fs.String("in", "", "")
+	out := fs.String("out", "", "")
+	_ = fs.Parse(args)
+	b, err := os.ReadFile(*in)
+	if err != nil {
+		fmt.Fprintln(os.Stderr, err)
+		return 2
+	}
+	var ri raceInput
+	if err := json.Unmarshal(b, &ri); err != nil {
+		fmt.Fprintln(os.Stderr, err)
+		return 2
+	}
+	h := env.Handler()
+	do := func(r raceReq) (int, []byte) {
+		var req = httptest.NewRequest(r.Method, r.Path, nil)
+		if r.Body != nil {
+			req = httptest.NewRequest(r.Method, r.Path, bytes.NewReader(r.Body))
+			req.Header.Set("Content-Type", "application/json")
+		}
+		rw := httptest.NewRecorder()
+		h.ServeHTTP(rw, req)
+		return rw.Code, rw.Body.Bytes()
+	}
+	var ro raceOutput
+	for si, set := range ri.Sets {
+		type resp struct {
+			code int
+			body []byte
+		}
+		solo := make([]resp, len(set))
+		if si > 0 || true {
+			// solo reference, except that the very first set runs concurrently at once so that
+			// lazily initialised state is first touched under parallelism
+		}
+		if si > 0 {
+			for i, r := range set {
+				c, b := do(r)
+				solo[i] = resp{c, b}
+			}
+		}
+		for round := 0; round < ri.Rounds; round++ {
+			res := make([]resp, len(set))
+			start := make(chan struct{})
+			var wg sync.WaitGroup
+			for i := range set {
+				wg.Add(1)
+				go func(i int) {
+					defer wg.Done()
+					<-start
+					c, b := do(set[i])
+					res[i] = resp{c, b}
+				}(i)
+			}
+			close(start)
+			wg.Wait()
+			ro.Requests += int64(len(set))
+			if si == 0 && round == 0 {
+				for i, r := range set {
+					c, b := do(r)
+					solo[i] = resp{c, b}
+				}
+			}
+			for i := range set {
+				if res[i].code != solo[i].code || (res[i].code == 200 && !bytes.Equal(res[i].body, solo[i].body)) {
+					ro.Differs = append(ro.Differs, fmt.Sprintf("set %d request %d round %d: parallel %d/%s, alone %d/%s", si, i, round, res[i].code, DigestB(res[i].body), solo[i].code, DigestB(solo[i].body)))
+				}
+			}
+		}
+	}
+	_ = os.WriteFile(*out, JSONBytes(ro), 0o644)
+	return 0
+}
+
+var reRaceLoc = regexp.MustCompile(`^\s+(\S+)\(`)
+
+type raceReport struct {
+	pair string
+	text string
+	repo bool
+}
+
+// parseRaces splits the detector output into reports and names, for each of
+// the two conflicting accesses, the innermost frame in repo code.
+func parseRaces(stderr string) []raceReport {
+	var out []raceReport
+	blocks := strings.Split(stderr, "WARNING: DATA RACE")
+	for _, blk := range blocks[1:] {
+		if i := strings.Index(blk, "=================="); i >= 0 {
+			blk = blk[:i]
+		}
+		// sections: first access, "Previous ..." access, then goroutine creation stacks
+		lines := strings.Split(blk, "\n")
+		var accesses [][]string
+		var cur []string
+		for _, ln := range lines {
+			t := strings.TrimSpace(ln)
+			if strings.HasPrefix(t, "Goroutine ") {
+				break
+			}
+			if strings.HasPrefix(t, "Read at") || strings.HasPrefix(t, "Write at") || strings.HasPrefix(t, "Previous ") || strings.HasPrefix(t, "Atomic ") {
+				if cur != nil {
+					accesses = append(accesses, cur)
+				}
+				cur = []string{}
+				continue
+			}
+			if cur != nil {
+				cur = append(cur, ln)
+			}
+		}
+		if cur != nil {
+			accesses = append(accesses, cur)
+		}
+		var sites []string
+		repo := false
+		for _, acc := range accesses {
+			site := "?"
+			for _, ln := range acc {
+				m := reRaceLoc.FindStringSubmatch(ln)
+				if m == nil {
+					continue
+				}
+				fn := m[1]
+				if strings.Contains(fn, "RealDecisionMaker/lib") || (strings.HasPrefix(fn, "main.") && !strings.HasPrefix(fn, "main.zz") && !strings.HasPrefix(fn, "main.(*zz")) {
+					if k := strings.LastIndex(fn, "/"); k >= 0 {
+						fn = fn[k+1:]
+					}
+					site = fn
+					repo = true
+					break
+				}
+			}
+			sites = append(sites, site)
+		}
+		sort.Strings(sites)
+		out = append(out, raceReport{pair: strings.Join(sites, " <-> "), text: clip(blk, 2500), repo: repo})
+	}
+	return out
+}
+
+func runRaceNode(ri raceInput, timeout time.Duration) (ro raceOutput, reports []raceReport, fatal string) {
+	dir, err := os.MkdirTemp(os.Getenv("DST_SCRATCH"), "race")
+	if err != nil {
+		infra("mktemp: %v", err)
+	}
+	defer os.RemoveAll(dir)
+	in, out := filepath.Join(dir, "in.json"), filepath.Join(dir, "out.json")
+	_ = os.WriteFile(in, JSONBytes(ri), 0o644)
+	cmd := exec.Command(os.Getenv("DST_NODE_RACE"), "racenode", "-in", in, "-out", out)
+	cmd.Env = append(os.Environ(), "GORACE=exitcode=0 halt_on_error=0", fmt.Sprintf("GOMAXPROCS=%d", runtime.NumCPU()))
+	var eb bytes.Buffer
+	cmd.Stderr = &eb
+	done := make(chan error, 1)
+	if err := cmd.Start(); err != nil {
+		infra("start race node: %v", err)
+	}
+	go func() { done <- cmd.Wait() }()
+	select {
+	case err = <-done:
+	case <-time.After(timeout):
+		_ = cmd.Process.Kill()
+		infra("race node watchdog fired")
+	}
+	reports = parseRaces(eb.String())
+	if err != nil {
+		s := eb.String()
+		if i := strings.Index(s, "fatal error:"); i >= 0 {
+			fatal = clip(s[i:], 1500)
+		} else if len(reports) == 0 {
+			infra("race node failed: %v: %s", err, tail(s, 600))
+		}
+	}
+	if b, e := os.ReadFile(out); e == nil {
+		_ = json.Unmarshal(b, &ro)
+	}
+	return
+}
+
+func raceSetsFromPlans(prop string, seed uint64, tier string, n int) [][]raceReq {
+	var sets [][]raceReq
+	for i := 0; i < n; i++ {
+		p := GenPlan(prop, seed, i, tier)
+		for _, op := range p.Ops {
+			if op.Kind != "group" {
+				continue
+			}
+			var set []raceReq
+			for _, t := range op.Tasks {
+				m, path := t.Method, t.Path
+				if m == "" {
+					m = "POST"
+				}
+				if path == "" {
+					path = "/api/decide"
+				}
+				set = append(set, raceReq{Method: m, Path: path, Body: t.BodyBytes()})
+			}
+			if len(set) > 1 {
+				sets = append(sets, set)
+			}
+			break
+		}
+	}
+	return sets
+}
+
+func (c *checker) raceHalf(a *runOutcome) {
+	if os.Getenv("DST_NODE_RACE") == "" {
+		infra("C10 needs the -race node (DST_NODE_RACE not set)")
+	}
+	nPlans, rounds, procs := 240, 3, 4
+	if c.tier == "thorough" {
+		nPlans, rounds, procs = 6000, 4, 8
+	}
+	sets := raceSetsFromPlans(c.prop, c.seed, c.tier, nPlans)
+	// the schema endpoint next to decisions: its lazy initialisation is process-wide state
+	if len(sets) > 0 {
+		sets[0] = append(sets[0], raceReq{Method: "GET", Path: "/api/preferenceFunctions"}, raceReq{Method: "GET", Path: "/api/preferenceFunctions"})
+	}
+	ev := &raceEvidence{Rounds: rounds, RequestSets: len(sets), Note: "un-instrumented -race build, requests of a set released together as parallel goroutines; interleavings not simulator-chosen (see DESIGN.md 6.5)"}
+	c.raceEv = ev
+	type part struct {
+		ro      raceOutput
+		reports []raceReport
+		fatal   string
+		sets    [][]raceReq
+	}
+	parts := make([]part, procs)
+	var wg sync.WaitGroup
+	for pi := 0; pi < procs; pi++ {
+		for k := pi; k < len(sets); k += procs {
+			parts[pi].sets = append(parts[pi].sets, sets[k])
+		}
+		if len(parts[pi].sets) == 0 {
+			continue
+		}
+		wg.Add(1)
+		go func(pi int) {
+			defer wg.Done()
+			p := &parts[pi]
+			p.ro, p.reports, p.fatal = runRaceNode(raceInput{Sets: p.sets, Rounds: rounds}, 40*time.Minute)
+		}(pi)
+	}
+	wg.Wait()
+	pairs := map[string]raceReport{}
+	for _, p := range parts {
+		ev.Requests += p.ro.Requests
+		ev.Reports += len(p.reports)
+		for _, r := range p.reports {
+			if r.repo {
+				ev.RepoReports++
+				if _, ok := pairs[r.pair]; !ok {
+					pairs[r.pair] = r
+				}
+			}
+		}
+		ev.Differs += len(p.ro.Differs)
+		if p.fatal != "" {
+			ev.Fatal++
+		}
+	}
+	var keys []string
+	for k := range pairs {
+		keys = append(keys, k)
+	}
+	sort.Strings(keys)
+	ev.Pairs = keys
+	for _, p := range parts {
+		if p.fatal != "" {
+			v := Violation{Property: "C10", Oracle: "fatal-under-parallelism", Op: "race", Key: "C10|fatal|" + fatalClass(p.fatal),
+				Detail: "the -race node died while serving parallel requests: " + clip(p.fatal, 500)}
+			c.noteRace(v, p.sets, rounds)
+		}
+		if len(p.ro.Differs) > 0 {
+			v := Violation{Property: "C10", Oracle: "parallel-differs", Op: "race", Key: "C10|parallel-differs",
+				Detail: "under real parallelism a response differed from the one the same request produced alone: " + clip(strings.Join(p.ro.Differs, "; "), 500)}
+			c.noteRace(v, p.sets, rounds)
+		}
+	}
+	for _, k := range keys {
+		r := pairs[k]
+		v := Violation{Property: "C10", Oracle: "data-race", Op: "race", Key: "C10|data-race|" + strings.ReplaceAll(k, " ", ""),
+			Detail: "the Go race detector reports unsynchronised conflicting accesses in repo code: " + k + "\n" + clip(r.text, 900)}
+		// find which part saw it
+		for _, p := range parts {
+			for _, rr := range p.reports {
+				if rr.pair == k {
+					c.noteRace(v, p.sets, rounds)
+					goto next
+				}
+			}
+		}
+	next:
+	}
+}
+
+type raceFound struct {
+	v      Violation
+	sets   [][]raceReq
+	rounds int
+}
+
+func (c *checker) noteRace(v Violation, sets [][]raceReq, rounds int) {
+	c.violationsTotal++
+	v.Key = strings.ReplaceAll(v.Key, " ", "_")
+	if f := c.matchKnown(v); f != nil {
+		c.knownHits[f.key]++
+		return
+	}
+	if fv, ok := c.newKeys[v.Key]; ok {
+		fv.count++
+		return
+	}
+	c.newKeys[v.Key] = &foundViolation{v: v, index: -1, count: 1, race: &raceFound{v: v, sets: sets, rounds: rounds}}
+}
+
+func raceMatches(v *Violation, reports []raceReport, ro raceOutput, fatal string) bool {
+	switch v.Oracle {
+	case "data-race":
+		for _, r := range reports {
+			if r.repo && "C10|data-race|"+strings.ReplaceAll(r.pair, " ", "") == v.Key {
+				return true
+			}
+		}
+	case "fatal-under-parallelism":
+		return fatal != ""
+	case "parallel-differs":
+		return len(ro.Differs) > 0
+	}
+	return false
+}
+
+func toRaceReplay(sets [][]raceReq, rounds int, v *Violation) *Replay {
+	rr := &RaceReplay{Rounds: rounds, Pair: v.Key}
+	for _, s := range sets {
+		var set []RaceRequest
+		for _, r := range s {
+			q := RaceRequest{Method: r.Method, Path: r.Path}
+			op := &Op{}
+			if r.Body != nil {
+				op.SetBody(r.Body)
+			} else {
+				op.NoBody = true
+			}
+			q.Op = op
+			set = append(set, q)
+		}
+		rr.Sets = append(rr.Sets, set)
+	}
+	return &Replay{Property: "C10", Mode: "race", Expected: v, Race: rr,
+		Note: "run the request sets in the un-instrumented -race build, each set as parallel goroutines; reproduces = the detector names the same pair of repo locations (interleaving is not simulator-chosen)"}
+}
+
+func fromRaceReplay(rp *Replay) raceInput {
+	ri := raceInput{Rounds: rp.Race.Rounds}
+	for _, s := range rp.Race.Sets {
+		var set []raceReq
+		for _, q := range s {
+			set = append(set, raceReq{Method: q.Method, Path: q.Path, Body: q.Op.BodyBytes()})
+		}
+		ri.Sets = append(ri.Sets, set)
+	}
+	return ri
+}
+
+func raceReproduces(rp *Replay) (bool, *Violation) {
+	if rp.Race == nil || os.Getenv("DST_NODE_RACE") == "" {
+		return false, nil
+	}
+	ri := fromRaceReplay(rp)
+	for attempt := 0; attempt < 3; attempt++ {
+		ro, reports, fatal := runRaceNode(ri, 20*time.Minute)
+		if raceMatches(rp.Expected, reports, ro, fatal) {
+			return true, rp.Expected
+		}
+		ri.Rounds *= 2
+	}
+	return false, nil
+}
+
+// makeRaceReplay shrinks the request sets (whole sets first, then requests of
+// the remaining set) while the same report reproduces.
+func (c *checker) makeRaceReplay(fv *foundViolation) string {
+	rf := fv.race
+	sets := rf.sets
+	rounds := rf.rounds * 2
+	test := func(s [][]raceReq) bool {
+		c.minimiseRuns++
+		ok, _ := raceReproduces(toRaceReplay(s, rounds, &fv.v))
+		return ok
+	}
+	if !test(sets) {
+		infra("race report %s did not reproduce with the same request sets (logged; no verdict): %s", fv.v.Key, clip(fv.v.Detail, 400))
+	}
+	budget := 24
+	for len(sets) > 1 && budget > 0 {
+		half := len(sets) / 2
+		budget--
+		if test(sets[:half]) {
+			sets = sets[:half]
+			continue
+		}
+		budget--
+		if test(sets[half:]) {
+			sets = sets[half:]
+			continue
+		}
+		break
+	}
+	if len(sets) == 1 {
+		for i := len(sets[0]) - 1; i >= 0 && len(sets[0]) > 2 && budget > 0; i-- {
+			cand := append(append([]raceReq{}, sets[0][:i]...), sets[0][i+1:]...)
+			budget--
+			if test([][]raceReq{cand}) {
+				sets = [][]raceReq{cand}
+			}
+		}
+	}
+	rp := toRaceReplay(sets, rounds, &fv.v)
+	return c.writeReplay(rp, fv)
+}
+
+// ---- determinism self-test ----
+
+// selftestMain: the same seeds executed in several fresh processes at
+// GOMAXPROCS 1/4/16 must produce identical plans, responses and schedules.
+func selftestMain(args []string) int {
+	fs := flag.NewFlagSet("selftest", flag.ExitOnError)
+	n := fs.Int("runs", 40, "seeds per property")
+	procs := fs.Int("procs", 3, "processes per GOMAXPROCS value")
+	_ = fs.Parse(args)
+	seed := envSeed()
+	bad := 0
+	for _, prop := range []string{"C02", "C07", "C08", "C09", "C10", "C20"} {
+		var idx []int
+		for i := 0; i < *n; i++ {
+			idx = append(idx, i)
+		}
+		var ref map[int]string
+		total := 0
+		for _, g := range []int{1, 4, 16} {
+			for k := 0; k < *procs; k++ {
+				o := runBatch(prop, seed, "quick", idx, 1, []int{g}, fmt.Sprintf("self-%s-%d-%d", prop, g, k))
+				cur := map[int]string{}
+				for i, r := range o.results {
+					cur[i] = r.PlanDigest + "|" + strings.Join(r.OpDigests, ",") + "|" + fmt.Sprint(r.Segments) + "|" + fmt.Sprint(r.Stats.Ticks, r.Stats.Switches, r.Stats.MapDecisions)
+				}
+				total++
+				if ref == nil {
+					ref = cur
+					continue
+				}
+				for i, v := range cur {
+					if ref[i] != v {
+						bad++
+						fmt.Printf("NONDETERMINISM property=%s run=%d GOMAXPROCS=%d: %s\n   vs %s\n", prop, i, g, clip(v, 300), clip(ref[i], 300))
+					}
+				}
+			}
+		}
+		fmt.Printf("[selftest] %s: %d runs x %d processes identical=%v\n", prop, *n, total, bad == 0)
+	}
+	if bad > 0 {
+		fmt.Println("INFRASTRUCTURE: the simulator is not deterministic")
+		return 2
+	}
+	return 0
+}
